@@ -32,6 +32,36 @@ AGREE_THEOREMS = {
 }
 
 
+# source-agreement leaves (DESIGN 11.7): interpreting the dumped Python source = the model, for all inputs
+PYAGREE = {
+    'C02': ['MiscFd'],
+    'C03': ['Pdu', 'MiscFc'],
+    'C05': ['Pdu'],
+    'C06': ['Pdu'],
+    'C07': ['MiscTimer'],
+    'C08': ['MiscTimer'],
+    'C09': ['AddressFns', 'AddressInit'],
+    'C16': ['AddressValidate', 'AddressInit'],
+    'C19': ['SockOpts'],
+    'C20': ['AddressFns', 'SockOpts'],
+}
+# leaves that are finished and committed
+PYAGREE_READY = {'AddressFns', 'AddressValidate', 'MiscFd', 'MiscFc', 'MiscTimer'}
+
+
+def pyagree_theorems(mod):
+    p = os.path.join(LEAN, 'Isotp', 'PyAgree', mod + '.lean')
+    out = []
+    if os.path.exists(p):
+        for line in open(p, encoding='utf-8'):
+            m = re.match(r'\s*#print axioms\s+(\S+)', line)
+            if m:
+                n = m.group(1) if m.group(1).startswith('Isotp.') else 'Isotp.PyAgree.' + m.group(1)
+                if n not in out:
+                    out.append(n)
+    return out
+
+
 def theorems_of(mod):
     p = os.path.join(LEAN, 'Isotp', 'Props', mod + '.lean')
     if not os.path.exists(p):
@@ -55,11 +85,17 @@ def main():
             ms.append('Isotp.Props.' + m)
             ths.extend(t)
             by_mod['Isotp.Props.' + m] = t
-        for a in AGREE.get(pid, []):
+        agree = list(AGREE.get(pid, []))
+        agree_th = sum([AGREE_THEOREMS[a] for a in agree], [])
+        for a in agree:
             by_mod[a] = AGREE_THEOREMS[a]
-        reg[pid] = {'modules': ms, 'theorems': ths, 'agree': AGREE.get(pid, []),
-                    'agree_theorems': sum([AGREE_THEOREMS[a] for a in AGREE.get(pid, [])], []),
-                    'by_module': by_mod}
+        for leaf in PYAGREE.get(pid, []):
+            t = pyagree_theorems(leaf) if leaf in PYAGREE_READY else []
+            if t:
+                agree.append('Isotp.PyAgree.' + leaf)
+                agree_th.extend(t)
+                by_mod['Isotp.PyAgree.' + leaf] = t
+        reg[pid] = {'modules': ms, 'theorems': ths, 'agree': agree, 'agree_theorems': agree_th, 'by_module': by_mod}
     with open(os.path.join(HERE, 'registry.json'), 'w') as f:
         json.dump(reg, f, indent=1)
     for pid, r in reg.items():
